@@ -790,8 +790,8 @@ def oracle_constructors(o, rng, n):
                         inp = np.r_[np.atleast_1d(av), tt]
                         o.elems(f'ctor:{nm}:{unit}:{tform}:{aform}:SE3', lambda: getattr(SE3, nm)(arg, unit, **kw), refs, lambda x: x.A, inp, max(1.0, float(np.max(np.abs(tt)))) if tv is not None else 1.0)
                         if nm != 'Rx' and tv is not None:
-                            # Twist3.Ry / Rz also offer t=: one cell per constructor (the option is either honoured or not)
-                            o.elems(f'ctor:{nm}:t-option:Twist3', lambda: getattr(Twist3, nm)(arg, unit, **kw), refs, lambda x: x.SE3().A, inp, max(1.0, float(np.max(np.abs(tt)))))
+                            # Twist3.Ry / Rz also offer t= (honoured since /repo f2aa26c): one cell per constructor
+                            o.elems(f'ctor:{nm}:with-t:Twist3', lambda: getattr(Twist3, nm)(arg, unit, **kw), refs, lambda x: x.SE3().A, inp, max(1.0, float(np.max(np.abs(tt)))))
                         if tv is None and aform == 'vector':
                             r3 = [M[:3, :3] for M in refs]
                             o.elems(f'ctor:{nm}:{unit}:vector:SO3', lambda: getattr(SO3, nm)(arg, unit), r3, lambda x: x.A, inp)
@@ -803,8 +803,8 @@ def oracle_constructors(o, rng, n):
             A3 = np.array([[near_special_angle(rng) if rng.random() < 0.3 else rng.uniform(-math.pi, math.pi) for _ in range(3)] for _ in range(int(rng.integers(2, 5)))])
             for cname, cls, getR in classes3:
                 for order in ('zyx', 'xyz', 'yxz'):
-                    o.elems(f'ctor:RPY:{order}:{unit}:Nx3:{cname}', lambda: cls.RPY(A3 * k, order=order, unit=unit), [_rpy(a, order) for a in A3], getR, A3, gkey=f'ctor:RPY:Nx3:{cname}')
-                o.elems(f'ctor:Eul:{unit}:Nx3:{cname}', lambda: cls.Eul(A3 * k, unit=unit), [_eul(a) for a in A3], getR, A3, gkey=f'ctor:Eul:Nx3:{cname}')
+                    o.elems(f'ctor:RPY:{order}:{unit}:Nx3:{cname}', lambda: cls.RPY(A3 * k, order=order, unit=unit), [_rpy(a, order) for a in A3], getR, A3, gkey=f'ctor:RPY:rows:{cname}')
+                o.elems(f'ctor:Eul:{unit}:Nx3:{cname}', lambda: cls.Eul(A3 * k, unit=unit), [_eul(a) for a in A3], getR, A3, gkey=f'ctor:Eul:rows:{cname}')
             # planar
             R2 = np.array([[math.cos(th), -math.sin(th)], [math.sin(th), math.cos(th)]])
             Y = o.guard(f'ctor:SO2:{unit}', lambda: SO2(th * k, unit=unit).A, [th])
@@ -915,7 +915,7 @@ def oracle_multi(o, rng, n):
             L[:2, :2], L[:2, 3], L[2, 3] = T[:2, :2], T[:2, 2], z
             return L
         if so2 is not None:
-            o.elems('multi:SO2.SE2', lambda: so2.SE2(), [_T(R, [0, 0]) for R in R2s], lambda x: x.A, inp2)
+            o.elems('multi:SO2_N.SE2', lambda: so2.SE2(), [_T(R, [0, 0]) for R in R2s], lambda x: x.A, inp2)
         if se2 is not None:
             o.elems('multi:SE2.SE3', lambda: se2.SE3(z), [lift(T) for T in T2s], lambda x: x.A, inp2, 10.0)
             o.elems('multi:SE2.SE3:hom', lambda: (se2 * se2.inv() * se2).SE3(z), [lift(T) for T in T2s], lambda x: x.A, inp2, 10.0)
@@ -926,7 +926,7 @@ def oracle_multi(o, rng, n):
                 o.elems('multi:Twist2_N.SE2', lambda: tw2.SE2(), T2s, lambda x: x.A, inp2, 10.0)
                 o.elems('multi:Twist2_N.exp', lambda: tw2.exp(), T2s, lambda x: x.A, inp2, 10.0)
         if so3 is not None:
-            o.elems('multi:SE3.SO3(SO3)', lambda: SE3.SO3(so3), [_T(R, [0, 0, 0]) for R in R3s], lambda x: x.A, inp3)
+            o.elems('multi:SE3.SO3(SO3_N)', lambda: SE3.SO3(so3), [_T(R, [0, 0, 0]) for R in R3s], lambda x: x.A, inp3)
             uq = o.elems('multi:UQ(SO3)', lambda: UnitQuaternion(so3), R3s, lambda x: x.R, inp3)
             if uq is not None:
                 o.elems('multi:UQ_N.SO3', lambda: uq.SO3(), R3s, lambda x: x.A, inp3)
